@@ -10,6 +10,7 @@
 
 #include <chrono>
 #include <memory>
+#include <unistd.h>
 
 #include "torrent/exceptions.h"
 #include "torrent/system/callbacks.h"
@@ -69,6 +70,7 @@ Cmd parse_cmd(const std::string& tok) {
     break;
   case 'C': case 'W': case 'X': c.id = std::stoi(f.at(1)); break;
   case 'D': c.oi = f.at(1) == "1"; break;
+  case 'L': break;
   default: throw std::runtime_error("cmd");
   }
   return c;
@@ -137,6 +139,11 @@ void exec_cmd(Case& cs, const Cmd& c, bool in_cb) {
   case 'D':
     if (in_cb) Controller::point("nop"); else self->process_callbacks(c.oi);
     break;
+  case 'L':
+    // one pass of Poll::do_poll with a zero timeout: fetch_or(flag_polling), the timeout decision (visible as the
+    // label of the schedule point before epoll_wait), epoll_wait(0), fetch_and
+    self->m_poll->do_poll(0us);
+    break;
   }
 }
 
@@ -151,7 +158,7 @@ std::string words(Case& cs) {
 }
 std::string intr_bits(Case& cs) {
   std::string s;
-  for (auto& t : cs.threads) s += (t->m_poll->m_polling_state.load() & torrent::system::Poll::flag_interrupted) ? "1" : "0";
+  for (auto& t : cs.threads) s += std::to_string(t->m_poll->m_polling_state.load() & torrent::system::Poll::flag_state_mask);
   return s;
 }
 
@@ -169,8 +176,6 @@ std::string run_case(const std::string& line) {
   cs.sched    = parts[3];
   for (int i = 0; i < cs.nthreads; i++) {
     cs.threads.push_back(std::make_unique<HThread>());
-    // the target "sits in epoll_wait": do_interrupt's CAS then sets flag_interrupted (observable)
-    cs.threads.back()->m_poll->m_polling_state.store(torrent::system::Poll::flag_polling);
   }
   for (int i = 0; i < cs.nids; i++) cs.ids.push_back(torrent::system::make_callback_id());
   cs.nposted.assign(cs.nthreads, 0);
@@ -200,7 +205,9 @@ std::string run_case(const std::string& line) {
       const char* lab = ctrl.label(t);
       std::string l   = lab ? lab : "";
       cs.step_events.clear();
-      if (ctrl.step(t) != Controller::STEPPED) { out += " " + std::to_string(t) + ":-"; continue; }
+      auto sr = ctrl.step(t);
+      if (sr == Controller::HUNG) { std::cout << "ERR:hang thread " << t << " after " << l << std::endl; _exit(3); }
+      if (sr != Controller::STEPPED) { out += " " + std::to_string(t) + ":-"; continue; }
       out += " " + std::to_string(t) + ":" + l + ":" + words(cs) + ":" + intr_bits(cs);
       for (size_t i = 0; i < cs.step_events.size(); i++) out += (i ? "+" : ":") + cs.step_events[i];
     }
